@@ -40,7 +40,8 @@ CONSTANTS MaxN,        \* data set sizes 1..MaxN
           Vals,        \* point values for data sets
           BigVals,     \* point values for the largest data sets of the alignment cases (size MaxN)
           ERange,      \* eigenvalues of the post-processing cases: -ERange..ERange
-          MaxKM        \* kernel_matrix: sizes 1..MaxKM on both sides
+          MaxKM,       \* kernel_matrix: sizes 1..MaxKM on both sides
+          KMVals       \* point values of the kernel_matrix data sets
 VARIABLES ph, cs, log, mat, pc
 vars == <<ph, cs, log, mat, pc>>
 
@@ -124,7 +125,7 @@ Pick ==
                /\ cs' = [kind |-> "al", N |-> cs.N, fam |-> cs.fam, X |-> X, Y |-> Y, an |-> an, rs |-> rs]
                /\ mat' = Entrywise(X, cs.fam, an) /\ ph' = "emit"
        [] cs.kind = "km" ->
-            \E X1 \in [1..cs.N -> Vals], X2 \in [1..cs.N2 -> Vals] :
+            \E X1 \in [1..cs.N -> KMVals], X2 \in [1..cs.N2 -> KMVals] :
                /\ cs' = [kind |-> "km", N |-> cs.N, N2 |-> cs.N2, fam |-> cs.fam, X |-> X1, X2 |-> X2]
                /\ mat' = Blank(cs.N, cs.N2) /\ ph' = "cross"
        [] cs.kind = "psd" ->
@@ -193,5 +194,5 @@ PsdOK == (AtEmit /\ cs.kind = "psd") =>
      /\ IsSymmetric(r.K) /\ IsSymmetric(r.thr) /\ IsSymmetric(r.flip) /\ IsSymmetric(r.disp)
      /\ r.already => (r.thr = r.K /\ r.flip = r.K /\ r.disp = r.K)
 \* negative control (FALSE claim, must be refuted through the asymmetric probe kernel)
-NegSymmetricAlways == (AtEmit /\ cs.kind = "sq") => IsSymmetric(mat)
+NegEntrywiseAlways == (AtEmit /\ cs.kind = "sq") => mat = Entrywise(cs.X, cs.fam, cs.an)
 =============================================================================
